@@ -1763,6 +1763,16 @@ class Mesher:
             surfaces=surfaces, extrude=extrude, elemType=elemType, layers=layers
         )
 
+        # The source surfaces keep their own orientation: when the extrusion leaves them along
+        # their normal, that normal points into the body. Reverse their mesh so that every
+        # boundary element of the body is oriented outward.
+        factory.synchronize()
+        for surf in surfaces:
+            bounds = np.asarray(gmsh.model.getParametrizationBounds(2, surf))
+            normal = gmsh.model.getNormal(surf, bounds.mean(axis=0))
+            if np.dot(normal, np.asarray(extrude, dtype=float)[:3]) > 0:
+                gmsh.model.mesh.setReverse(2, surf)
+
         # get 3D entities
         entities_3D = factory.getEntities(3)  # type: ignore
 
